@@ -199,8 +199,8 @@ def run(repo, tier):
     f = repo.get_function(f'{PB}._circular_apertures')
     calls = SP.find_calls(f.node, 'CircularAperture')
     ok = len(calls) == 1 and [nf(a) for a in calls[0].args] == ['self.xycen', 'radius']
-    loops = [n for n in ast.walk(f.node) if isinstance(n, ast.For)]
-    ok = ok and len(loops) == 1 and nf(loops[0].iter) == 'self.radii' and nf(loops[0].target) == 'radius'
+    comps = [n for n in ast.walk(f.node) if isinstance(n, ast.ListComp)]
+    ok = ok and len(comps) == 1 and nf(comps[0]) == nf_text('[None if radius <= 0.0 else CircularAperture(self.xycen, radius) for radius in self.radii]')
     res.oblige('SLOT', 'one CircularAperture(self.xycen, radius) per radius in self.radii', ok, nontrivial=True)
     if not ok:
         res.add(Finding('SLOT', f.fullname, 'aperture construction', f.loc,
